@@ -1941,8 +1941,14 @@ func (ls *LState) Status(th *LState) string {
 		status = "dead"
 	} else if ls.G.CurrentThread == th {
 		status = "running"
-	} else if ls.Parent == th {
-		status = "normal"
+	} else {
+		// every thread on the chain of resumers of the running thread is "normal"
+		for p := ls.Parent; p != nil; p = p.Parent {
+			if p == th {
+				status = "normal"
+				break
+			}
+		}
 	}
 	return status
 }
